@@ -1,5 +1,6 @@
 import Juniper.Driver.Basic
 import Juniper.Model.Cond
+import Juniper.Model.CondFine
 /-! Driver for the ContextCond LTS (C16): `driver cond`. State-set conformance.
 
 Lines: `init <k>` | `<action…> = <letters> <holder|->` where the action is one of
@@ -7,7 +8,11 @@ Lines: `init <k>` | `<action…> = <letters> <holder|->` where the action is one
 one status letter per waiter (I idle, A at Unlock holding the lock, B entered / not yet at the select,
 P parked, R woken and waiting for the lock, N returned nil, E returned the ctx error) plus the
 lock holder. Output `ok <n>` (n = model states compatible with everything observed so far) or
-`EMPTY allowed=<obs>;<obs>…` (the implementation did something the model says is impossible). -/
+`EMPTY allowed=<obs>;<obs>…` (the implementation did something the model says is impossible).
+
+`cex <k>`: Model-vs-Spec search in the fine-grained LTS (`Model/CondFine.lean`: `Signal` / `Broadcast`
+statement by statement, as regenerated): `k` waiters, two `Signal` calls and two `Broadcast` calls in
+progress, every interleaving; answers `ok none-in-<n>-states` or `cex <labels leading to a panic>`. -/
 namespace Juniper.Driver.C16
 open Juniper.Driver Juniper.Model.Cond
 
@@ -32,6 +37,32 @@ def applyAction (cfg : Cfg) (ss : List State) (act : List String) : List State :
   | [] => []
   | s :: _ => quiesce cfg (s.ws.length + 1) next.eraseDups
 
+def showFLabel : FLabel → String
+  | .env (.start i) => s!"start {i}"
+  | .env (.release i) => s!"release {i}"
+  | .env (.arrive i .recv) => s!"arrive {i} recv"
+  | .env (.arrive i .ctx) => s!"arrive {i} ctx"
+  | .env (.arrive i .park) => s!"arrive {i} park"
+  | .env (.relock i) => s!"relock {i}"
+  | .env .hunlock => "hunlock"
+  | .env (.cancel i) => s!"cancel {i}"
+  | .env _ => "?"
+  | .call true => "call Signal"
+  | .call false => "call Broadcast"
+  | .callStep j none => s!"call#{j} next statement"
+  | .callStep j (some i) => s!"call#{j} next statement (send handed to waiter {i})"
+
+/-- `panicSearch` that also reports how many states were expanded -/
+def panicSearchN (cfg : Cfg) : Nat → List (FState × List FLabel) → List FState → Nat → Option (List FLabel) × Nat
+  | 0, _, _, n => (none, n)
+  | _, [], _, n => (none, n)
+  | fuel + 1, (fs, path) :: rest, seen, n =>
+    if fs.panicked then (some path.reverse, n)
+    else if seen.contains fs then panicSearchN cfg fuel rest seen n
+    else
+      let succ := (fLabelsOf fs).filterMap fun l => (fstep cfg fs l).map fun fs' => (fs', l :: path)
+      panicSearchN cfg fuel (rest ++ succ) (fs :: seen) (n + 1)
+
 def showObs (o : String × Option Nat) : String :=
   o.1 ++ "/" ++ (match o.2 with | none => "-" | some i => toString i)
 
@@ -42,6 +73,13 @@ def step (st : St) (toks : List String) : St × String :=
   match toks with
   | ["init", k] => ({ ss := [init Cfg.gen (natOr k)] }, "ok 1")
   | ["cfg"] => (st, reprStr Cfg.gen |>.replace "\n" " ")
+  | ["cex", k] =>
+    let cfg := Cfg.gen
+    let mk (ops : List Gen.Cond.Op) : CallT := { todo := ops, holdsR := false, holdsW := false, snap := none }
+    let start : FState := { (finit cfg (natOr k)) with calls := [mk cfg.sigOps, mk cfg.bcOps, mk cfg.sigOps, mk cfg.bcOps] }
+    match panicSearchN cfg 200000 [(start, [])] [] 0 with
+    | (some path, _) => (st, "cex " ++ joinWith " ; " (path.map showFLabel))
+    | (none, n) => (st, s!"ok none-in-{n}-states")
   | _ =>
     if st.dead then (st, "dead") else
     let (act, obs) := splitAt toks
